@@ -60,6 +60,7 @@ fn survey(rep: &Report, r: Result<(), Fail>) -> Result<(), String> {
 // ---------------------------------------------------------------------------------------------
 // C07
 
+pub const SIG07_DEAD_TRAP: &str = "asm-dce-continues-past-arithmetic-abort";
 pub const SUBPASSES: [&str; 7] = ["const_indexing_aggregates_function", "constant_propagate", "dce", "simplify_cfg", "remove_sequential_jumps", "remove_redundant_moves", "remove_redundant_ops"];
 
 fn compile_with_mask(src: &str, lvl: OptLevel, mask: u32) -> Result<Vec<u8>, vcore::fastc::CompileFail> {
@@ -122,6 +123,15 @@ fn c07_eval(tape: &[u16], rep: &Report) -> Result<(), Fail> {
                     }
                 }
                 let detail = format!("{lname} build, script data {}: optimizer off {} vs on {} (restored by skipping: {culprit})", hex::encode(d), a.to_json(), b.to_json());
+                // recorded finding (root cause shared with C01/C02/C03): the asm-level dce removes an arithmetic instruction whose
+                // result is unused together with its overflow / division-by-zero panic. Attributed only in the plain variant, when
+                // the build without the optimizer ends in an arithmetic abort, the optimized build got at least as far, and
+                // skipping exactly the `dce` sub-pass restores the abort.
+                if !no_trap && culprit == "dce" && abort_class(&a.end) == "arith" && b.logs.len() >= a.logs.len() && b.logs[..a.logs.len()] == a.logs[..] {
+                    rep.class("known:dead-arithmetic-abort-eliminated");
+                    rep.violation(Violation { signature: SIG07_DEAD_TRAP.into(), summary: detail.clone(), replay: json!({"tape": tape, "level": lname, "src": src, "script_data": hex::encode(d), "detail": detail}) });
+                    break;
+                }
                 return Err((format!("asm-optimizer-changes-behaviour:{culprit}"), detail.clone(), json!({"tape": tape, "no_trap": no_trap, "level": lname, "src": src, "script_data": hex::encode(d), "detail": detail})));
             }
         }
@@ -141,7 +151,7 @@ pub fn run_c07(ctx: &Ctx) {
     rep.assume("scripts only; the optimizer switch covers AbstractInstructionSet::optimize (constant propagation, DCE, jump simplification, redundant move/op removal, constant-indexed aggregates), not the post-allocation peephole");
     rep.assume("a program that only builds with the optimizer on (backend limit exceeded without it) is skipped and counted");
     crate::progprops::spawn_watchdog("C07");
-    let cases = ctx.cases(450, 20_000);
+    let cases = ctx.cases(300, 20_000);
     let out = run_prop(ctx, 7, cases, tape_strategy, |tape| {
         crate::progprops::in_flight_set(Some(&gen_source(tape, false, false).unwrap_or_default()));
         let r = c07_eval(tape, &rep);
